@@ -272,6 +272,8 @@ structure FieldMapping where
   source : S := []
   ignore : Bool := false
   hasFunction : Bool := false
+  /-- the function named after `|` on a `map` line for this field, as written (`NAME` or `PKG:NAME`) -/
+  function : S := []
   deriving Repr, DecidableEq, Inhabited
 
 structure MethodCfg where
@@ -283,6 +285,8 @@ structure MethodCfg where
   rawFieldSettings : List S := []
   updateParam : S := []
   contexts : List S := []
+  /-- the function named by the method's (last) `default` line, as written -/
+  ctor : S := []
   deriving Repr, DecidableEq, Inhabited
 
 inductive MKey | map | ignore | update | context | enumMap | enumTransform | autoMap | default
@@ -324,7 +328,9 @@ def parseMethodLine (env : Env) (m : MethodCfg) (value : S) : Except SErr Method
   | some .map => do
     let (s, t, custom) ← parseMethodMap rest
     if !custom.isEmpty && !env.loaderOk then .error .needsLoader
-    else pure (track true { m with fields := updField m.fields t (fun f => { f with source := s }) })
+    else pure (track true { m with fields := updField m.fields t (fun f =>
+      -- a later `map` line for the same field without `| FUNC` keeps the function of the earlier one
+      { f with source := s, function := if custom.isEmpty then f.function else custom }) })
   | some .ignore =>
     .ok (track true { m with fields := (fields rest).foldl (fun fs f => updField fs f (fun x => { x with ignore := true })) m.fields })
   | some .update => do let s ← parseString rest; pure { m with updateParam := s }
@@ -346,7 +352,7 @@ def parseMethodLine (env : Env) (m : MethodCfg) (value : S) : Except SErr Method
   | some .autoMap => do
     let s ← parseString rest
     pure (track true { m with autoMap := m.autoMap ++ [trimSpace s] })
-  | some .default => if env.loaderOk then .ok m else .error .needsLoader
+  | some .default => if env.loaderOk then .ok { m with ctor := rest } else .error .needsLoader
   | none => do
     let (fs, cm) ← parseCommon env.rx m.common cmd rest
     pure (track fs { m with common := cm })
